@@ -400,6 +400,27 @@ MUTABLE_OK_CALLS = {'re.compile', 'frozenset', 'tuple', 'types.MappingProxyType'
 READER_MODULES = ('forml.provider.feed', 'forml.io._input')
 
 
+def cache_key(ctx) -> None:
+    """The result cache of the SQL feeds is keyed by the statement *including its literal values* (two ordinal windows of the
+    same shape differ in their bound literals only)."""
+    prog = ctx.prog
+    # the result cache key must at least determine the statement *including its literal values*
+    key_fn = prog.func('forml.provider.feed.alchemy:Results._statement2key')
+    ctx.sample({'result_cache_key_params': key_fn.param_names})
+    compiles = [c for c in core.calls_in(key_fn.node) if isinstance(c.func, ast.Attribute) and c.func.attr == 'compile']
+    literal = False
+    for c in compiles:
+        for kw in c.keywords:
+            if kw.arg == 'compile_kwargs' and isinstance(kw.value, ast.Dict):
+                for k, v in zip(kw.value.keys, kw.value.values):
+                    if isinstance(k, ast.Constant) and k.value == 'literal_binds' and core.is_const(v, True):
+                        literal = True
+    text = core.src(key_fn.node)
+    values_in_key = literal or 'params.items()' in text or 'params.values()' in text
+    whole = any(isinstance(c, ast.Call) and core.call_name(c) == 'str' and c.args and any(x in compiles for x in ast.walk(c.args[0])) for c in core.calls_in(key_fn.node)) if literal else values_in_key
+    ctx.check(bool(compiles) and values_in_key and whole, 'C06.cache-key', key_fn, 'the result-cache key is a digest of the whole compiled statement with its literal values bound (statements differing in a literal must not share a cached result)', key_fn.node, key='statement2key:literals')
+
+
 def shared_state(ctx) -> None:
     """Process-global mutable state held at class level by feed readers and consulted on the read path."""
     prog = ctx.prog
@@ -443,21 +464,7 @@ def shared_state(ctx) -> None:
             else:
                 ctx.ok('C06.shared-state', ci.ref, f'{ci.qual}.{name} is immutable or never written at call time')
     ctx.floor('C06.shared-state', n, 4)
-    # the result cache key must at least determine the statement *including its literal values*
-    key_fn = prog.func('forml.provider.feed.alchemy:Results._statement2key')
-    ctx.sample({'result_cache_key_params': key_fn.param_names})
-    compiles = [c for c in core.calls_in(key_fn.node) if isinstance(c.func, ast.Attribute) and c.func.attr == 'compile']
-    literal = False
-    for c in compiles:
-        for kw in c.keywords:
-            if kw.arg == 'compile_kwargs' and isinstance(kw.value, ast.Dict):
-                for k, v in zip(kw.value.keys, kw.value.values):
-                    if isinstance(k, ast.Constant) and k.value == 'literal_binds' and core.is_const(v, True):
-                        literal = True
-    text = core.src(key_fn.node)
-    values_in_key = literal or 'params.items()' in text or 'params.values()' in text
-    whole = any(isinstance(c, ast.Call) and core.call_name(c) == 'str' and c.args and any(x in compiles for x in ast.walk(c.args[0])) for c in core.calls_in(key_fn.node)) if literal else values_in_key
-    ctx.check(bool(compiles) and values_in_key and whole, 'C06.cache-key', key_fn, 'the result-cache key is a digest of the whole compiled statement with its literal values bound (statements differing in a literal must not share a cached result)', key_fn.node, key='statement2key:literals')
+    cache_key(ctx)
     # lazy origins: an origin is recorded as registered only after the registration succeeded (no stale "done" mark)
     lz = prog.func('forml.provider.feed.lazy:Feed.Reader.__call__')
     graph = cfg.CFG(lz.node)
